@@ -77,6 +77,12 @@ func grammarConform(c *Ctx, stream, text, tree string, nErrs int) {
 	if nErrs > 0 {
 		return
 	}
+	if len(tree) > 400000 {
+		// the conformance matcher is quadratic in the number of children of one rule node; documents with
+		// thousands of entries in one list are covered by the listener correspondence and the oracles only
+		c.Dist("grammar_conformance_skipped_large_tree")
+		return
+	}
 	// hypothesis of Props/C03.real_declaration_denotes: every relation declaration of the real tree is,
 	// positions erased, the embedding of a well-formed CST (counted; a declaration outside it stays
 	// covered by the differential walk, not by the theorem)
@@ -182,6 +188,24 @@ func init() {
 			}
 			d, _ := Render(m, lay)
 			c01One(c, d, "generated")
+		}
+		// documents whose SOURCE lines are short but whose PRINTED form has a line longer than any line buffer (64 KiB):
+		// a relation with thousands of type restrictions written one per line (the printer puts them on one line),
+		// followed by further relations, types and a condition that must survive the round trip
+		for i := 0; i < c.Pick(2, 8); i++ {
+			var sb strings.Builder
+			sb.WriteString("model\n  schema 1.1\n\ntype user\n\ntype group\n  relations\n    define member: [user]\n\ntype doc\n  relations\n    define big: [\n")
+			k := 7000 + rng.Intn(1000)
+			for j := 0; j < k; j++ {
+				sb.WriteString([]string{"      user", "      group#member", "      user:*", "      user with c1"}[(i+j)%4])
+				if j+1 < k {
+					sb.WriteString(",")
+				}
+				sb.WriteString("\n")
+			}
+			sb.WriteString("    ] or owner\n    define owner: [user]\n    define zlast: big and owner\n\ntype zzz\n  relations\n    define r: [user]\n\ncondition c1(x: int) {\n  x > 0\n}\n")
+			c.Dist("long_printed_line_documents")
+			c01One(c, sb.String(), "long-printed-line")
 		}
 		c.Sample(map[string]any{"dsl": "model\n  schema 1.1\ntype user\ntype doc\n  relations\n    define v: [user] or (a and b from p)"})
 	}
